@@ -143,6 +143,19 @@ CLAIMS = {
              "interval sets is not decided.",
         level_note=STATIC_BASE + "bisect semantics trusted.",
         technique="static analysis: ordering abstraction, idiom and parallel-array rules"),
+    "C17": dict(
+        design_ref="DESIGN.md §6 C17",
+        text="Partial (structural clauses only): sorted_combinations seeds one (key, singleton, index) heap entry per element; a "
+             "popped combination with last index k is extended exactly by the elements at k+1..n-1 (slice start and child "
+             "index compared as linear normal forms), the child is parent+(e,) pushed with key(child), so every combination "
+             "has exactly one parent; every popped combination is yielded once; the queue is touched only through heapq and "
+             "seed/push/pop agree on the entry layout; the stop and accept tests of min_combinations_in_interval_iter_sorted "
+             "equal 'i_end <= score or (found and best < score)' and 'i_start <= score < i_end' on every weak ordering of "
+             "(score, i_start, i_end, best), and the scan is fed by sorted_combinations(range(len(elements)), sum of scores, "
+             "yield_key=True). That the yielded keys are non-decreasing (needs the caller's key to be monotone under extension "
+             "and heapq to be correct) and the values themselves are not decided.",
+        level_note=STATIC_BASE + "heapq semantics and monotonicity of the caller's key trusted.",
+        technique="static analysis: linear normal forms over reaching definitions, layout agreement, ordering abstraction of guards"),
     "C18": dict(
         design_ref="DESIGN.md §6 C18",
         text="Exact for the clause: ownership typestate on all paths of every public entry point of the eight line-file "
